@@ -281,12 +281,26 @@ def judge_design(c, b, drv):
                         base["payload"], base["raw_body"] = {"tag": "t%d" % len(cmds)}, "raw body %d" % len(cmds)
                     cmds.append(base)
                     meta.append((m, T, view, val, None))
+                    base_at = len(cmds) - 1
                     if full and view in defined and not fixed:
                         for tv in ["nope"] + [d for d in defined if d != view][:1]:
                             c2 = json.loads(json.dumps(base))
                             c2["script"]["tamper_view"] = tv
                             cmds.append(c2)
                             meta.append((m, T, view, val, tv))
+                    if full and view in defined and not fixed and res["type"].get("collection"):
+                        # an EMPTY collection under an undefined label: there is no element whose validation could refuse the view
+                        c2 = json.loads(json.dumps(base))
+                        c2["script"]["result"], c2["script"]["tamper_view"] = [], "nope"
+                        cmds.append(c2)
+                        meta.append((m, T, view, [], "nope"))
+                    if view == "default" and not fixed:
+                        # the same response without a label: an empty name means the default view, so the client does what it did
+                        # with the labelled one
+                        c2 = json.loads(json.dumps(base))
+                        c2["script"]["tamper_view"] = ""
+                        cmds.append(c2)
+                        meta.append((m, T, view, val, "unlabelled:%d" % base_at))
                     if full and view in defined and not res["type"].get("collection"):
                         # a non-conforming server: the response lacks a required attribute of the labelled view
                         hdr_attrs = {mp["attr"] for r0 in ((m.get("http") or {}).get("responses") or []) for mp in (r0.get("headers") or [])}
@@ -299,6 +313,12 @@ def judge_design(c, b, drv):
                                 c2["script"]["tamper_drop"] = [an]
                                 cmds.append(c2)
                                 meta.append((m, T, view, val, "drop:" + an))
+                                if view == "default" and not fixed:
+                                    # ... and without a label: still the default view, still refused
+                                    c3 = json.loads(json.dumps(c2))
+                                    c3["script"]["tamper_view"] = ""
+                                    cmds.append(c3)
+                                    meta.append((m, T, view, val, "drop:" + an))
     if not cmds:
         return
     obs, err = b.run(cmds)
@@ -329,7 +349,7 @@ def judge_design(c, b, drv):
                        input={"seed": c.seed, "index": b.index, "command": cmd}, design=b.design)
         known = model[len(ops) + k] == "1"
         is_coll = bool(m["result"]["type"].get("collection"))
-        c.hist("case", ("tampered:" + ("undefined" if tv == "nope" else "dropped" if tv.startswith("drop:") else "other")) if tv else ("view:" + ("defined" if view in [v["name"] for v in rts[T]["views"]] else (view or "empty"))))
+        c.hist("case", ("tampered:" + ("undefined" if tv == "nope" else "dropped" if tv.startswith("drop:") else "unlabelled" if tv.startswith("unlabelled:") else "other")) if tv else ("view:" + ("defined" if view in [v["name"] for v in rts[T]["views"]] else (view or "empty"))))
         inp = {"seed": c.seed, "index": b.index, "command": cmd}
         w = o.get("wire") or {}
         if o.get("panic") and known:
@@ -354,6 +374,14 @@ def judge_design(c, b, drv):
             if not o.get("client_error"):
                 c.fail("c08/client-accepts-response-without-required-attribute", "%s view %r: the response lacked the required attribute %s of the view and the client "
                        "accepted it: %s" % (m["name"], view, tv[5:], json.dumps(o.get("client_result"))[:200]), input=inp, design=b.design)
+            continue
+        if tv and tv.startswith("unlabelled:"):
+            ob = obs[int(tv.split(":")[1])]
+            c.hist("case", "default view without a label")
+            if bool(o.get("client_error")) != bool(ob.get("client_error")) or canon(o.get("client_result")) != canon(ob.get("client_result")):
+                c.fail("c08/unlabelled-response-is-not-read-as-default-view", "%s: the response rendered with the default view gives the client %s when labelled and %s "
+                       "without a goa-view header" % (m["name"], json.dumps(ob.get("client_error") or ob.get("client_result"))[:200],
+                                                      json.dumps(o.get("client_error") or o.get("client_result"))[:200]), input=inp, design=b.design)
             continue
         if tv == "nope":
             if not o.get("client_error"):
